@@ -299,10 +299,10 @@ PROPERTIES['C09'] = {
 PROPERTIES['C14'] = {
     'level': 'other',
     'configs': two,
-    'rules': [olc('LOCK-3'), olc('LOCK-4'), olc('LOCK-7'), R(lock7a), keep_keys(R(lockword.lw6), lambda k: k.startswith('LW-6:upgrade'), 'a unit given back twice or never taken makes an assertion fire - C16 - but leaves no node read-locked'), R(point.lock10), R(lock2_obsoleting), lw_parts(('LW-1:dtor', 'LW-1:deactivate', 'LW-1:op', 'LW-1:store-value', 'LW-1:cas-desired', 'LW-1:caller:unodb::optimistic_lock::atomic_version_type::cas_acquire', 'LW-1:caller:unodb::optimistic_lock::try_upgrade', 'LW-1:caller:unodb::optimistic_lock::write_guard::try_lock_upgrade', 'LW-2', 'LW-3', 'LW-7:unlock|', 'LW-7:write_unlock|', 'LW-7:store:write_unlock|', 'LW-7:try_lock_upgrade', 'LW-7:try_upgrade'), 'memory orders, whole-word comparison, section snapshots and a missing obsoletion concern linearizability - C03 / C07 - not lock release or waiting')],
+    'rules': [olc('LOCK-3'), olc('LOCK-4'), olc('LOCK-7'), R(lock7a), keep_keys(R(lockword.lw6), lambda k: k.startswith('LW-6:upgrade'), 'a unit given back twice or never taken makes an assertion fire - C16 - but leaves no node read-locked'), R(point.lock10), R(lock2_obsoleting), lw_parts(('LW-1:dtor', 'LW-1:deactivate', 'LW-1:op', 'LW-1:store-value', 'LW-1:cas-desired', 'LW-1:caller:unodb::optimistic_lock::atomic_version_type::cas_acquire', 'LW-1:caller:unodb::optimistic_lock::try_upgrade', 'LW-1:caller:unodb::optimistic_lock::write_guard::try_lock_upgrade', 'LW-2', 'LW-3', 'LW-7:unlock|', 'LW-7:write_unlock|', 'LW-7:store:write_unlock|', 'LW-7:try_lock_upgrade', 'LW-7:try_upgrade', 'LW-10'), 'memory orders, whole-word comparison, section snapshots and a missing obsoletion concern linearizability - C03 / C07 - not lock release or waiting')],
     'technique': 'static analysis: relational typestate dataflow for lock order / no-wait-while-locked / guard typestate on every CFG path incl. exceptional exits of scope guards; path-sensitive effect flow (obsoletion followed by a restart result)',
     'explanation': 'No-deadlock / no-lock-left-held conditions: LOCK-3 (write ownership is only taken by non-blocking upgrade in root-to-leaf order and no waiting primitive - try_read_lock spin, spin_wait_loop_body - is reached while a guard is active, '
-                   'so no wait-for cycle can contain a writer and readers hold nothing), LOCK-4 (no operation on a guard that is not active: no double unlock / null dereference; guards are scope-bound RAII objects), LOCK-7b (sections are not validated after they ended), LOCK-7a / LW-6 (optimistic read locks are counted per node in assertion-enabled builds - the only sense in which a reader holds a node: no open section is overwritten by assignment, with per-return summaries of the helpers that end or keep the sections they are handed, and check / try_read_unlock / upgrade give the unit back on exactly the paths on which the section forgets its lock - so an operation that returns leaves no node read-locked, which would abort the later operation that frees that node), LOCK-10 (obsoletion is a point of no return: no path marks a node obsolete and then abandons the attempt with a restart result while the node is still linked - otherwise every later operation reaching that node restarts for ever although nobody holds a lock; path-sensitive effect flow with callee summaries), LOCK-2 restricted to functions that obsolete a node (the store that replaces / unlinks the obsoleted node in its parent is made under the active write guard of the parent: a store after the guard is gone can hit a slot that has moved, and the obsolete node stays linked); the lock-word premises of C07 that concern release and waiting - LW-1 (write ownership only through write_guard, which deactivates itself and unlocks exactly when active), LW-2 (is_free / is_write_locked / obsolete encodings: a wrong one makes try_read_lock wait for ever), LW-3 (the try_read_lock wait loop leaves on an obsolete word), LW-7 (unlock really unlocks, unlock_and_obsolete really obsoletes) - are reported here too: the anchors of this property include the lock; the memory-order, comparison and snapshot premises (LW-4, 5, 8, 9) are not.',
+                   'so no wait-for cycle can contain a writer and readers hold nothing), LOCK-4 (no operation on a guard that is not active: no double unlock / null dereference; guards are scope-bound RAII objects), LOCK-7b (sections are not validated after they ended), LOCK-7a / LW-6 (optimistic read locks are counted per node in assertion-enabled builds - the only sense in which a reader holds a node: no open section is overwritten by assignment, with per-return summaries of the helpers that end or keep the sections they are handed, and check / try_read_unlock / upgrade give the unit back on exactly the paths on which the section forgets its lock - so an operation that returns leaves no node read-locked, which would abort the later operation that frees that node), LOCK-10 (obsoletion is a point of no return: no path marks a node obsolete and then abandons the attempt with a restart result while the node is still linked - otherwise every later operation reaching that node restarts for ever although nobody holds a lock; path-sensitive effect flow with callee summaries), LOCK-2 restricted to functions that obsolete a node (the store that replaces / unlinks the obsoleted node in its parent is made under the active write guard of the parent: a store after the guard is gone can hit a slot that has moved, and the obsolete node stays linked); the lock-word premises of C07 that concern release and waiting - LW-1 (write ownership only through write_guard, which deactivates itself and unlocks exactly when active), LW-2 (is_free / is_write_locked / obsolete encodings: a wrong one makes try_read_lock wait for ever), LW-3 (the try_read_lock wait loop leaves on an obsolete word), LW-7 (unlock really unlocks, the upgrade is the CAS), LW-10 (a saved version tag keeps all 64 bits from rcs.get() through the iterator stack to rehydrate_read_lock: a truncated tag stops validating once the lock word passes 2^32, and the iterator re-seeks for ever although nobody holds a lock) - are reported here too: the anchors of this property include the lock; the memory-order, comparison and snapshot premises (LW-4, 5, 8, 9) are not.',
     'decides': 'lock acquisition order, no-wait-while-locked, guard typestate, no restart after obsoletion',
     'does_not_decide': 'freedom from starvation / livelock (the lock header itself says readers can starve)',
 }
@@ -333,8 +333,8 @@ PROPERTIES['C07'] = {
     'explanation': 'The optimistic lock is one atomic word; mutual exclusion of write guards, snapshot consistency of validated read sections, upgrade-iff-unchanged and finality of the obsolete state follow from five premises by a short written argument '
                    '(DESIGN.md, C07: free words strictly increase by 4, the write bit is set between a successful upgrade and the unlock, the obsolete word is odd and terminal; Boehm\'s seqlock argument for the orders). This check discharges the premises on the source: '
                    'LW-1 the word is written only by {CAS w -> w.set_locked_bit(), store old+2, store obsolete constant}, reachable only through write_guard, which deactivates itself; LW-2 value facts of is_free / is_write_locked / is_obsolete / set_locked_bit by evaluating the expression trees over the finite quotient (v mod 4, v = obsolete word); '
-                   'LW-3 recorded words are free words (try_read_lock path conditions judged by admitted word classes; rehydrate takes only rcs.get() values); LW-7 every link of the guard -> lock -> word chain makes exactly its own transition on every path (unlock_and_obsolete really obsoletes, write_unlock stores old+2, write_unlock_and_obsolete stores the obsolete constant); LW-8 moving a read section takes over lock AND version of the source on every path (an assignment from a must-restart section cannot leave the previous snapshot behind); LW-9 the section-level check / try_read_unlock are the lock-level ones applied to the section\'s own lock and recorded version and return that verdict unchanged, must_restart of section and guard is lock == nullptr; LW-4 memory-order table (acquire load / acquire fence before the validating load / acquire CAS / release stores, protected fields are std::atomic); LW-5 whole-word equality in check / try_read_unlock.',
-    'decides': 'all premises of the lock-level argument (LW-1..LW-5, LW-7..LW-9), every configuration in the thorough tier',
+                   'LW-3 recorded words are free words (try_read_lock path conditions judged by admitted word classes; rehydrate takes only rcs.get() values); LW-7 every link of the guard -> lock -> word chain makes exactly its own transition on every path (unlock_and_obsolete really obsoletes, write_unlock stores old+2, write_unlock_and_obsolete stores the obsolete constant); LW-8 moving a read section takes over lock AND version of the source on every path (an assignment from a must-restart section cannot leave the previous snapshot behind); LW-10 every carrier of a version tag (result of get(), iterator stack entry, parameter of rehydrate_read_lock, the version field) is 64 bits wide; LW-9 the section-level check / try_read_unlock are the lock-level ones applied to the section\'s own lock and recorded version and return that verdict unchanged, must_restart of section and guard is lock == nullptr; LW-4 memory-order table (acquire load / acquire fence before the validating load / acquire CAS / release stores, protected fields are std::atomic); LW-5 whole-word equality in check / try_read_unlock.',
+    'decides': 'all premises of the lock-level argument (LW-1..LW-5, LW-7..LW-10), every configuration in the thorough tier',
     'does_not_decide': 'the C++ memory-model argument itself (trusted: Boehm 2012), 64-bit wrap of the version; the use of the lock by the tree (C03/C14)',
     'trusted_base': ['clang 14 front end', 'usa extractor and rule engine', 'written argument in DESIGN.md section 6 (C07)', 'C++11 memory model / seqlock argument (Boehm, MSPC 2012)', 'the version counter does not wrap in 2^62 write cycles'],
     'assumptions': ['UNODB_DETAIL_THREAD_SANITIZER builds (fence replaced by TSan annotations) are outside the configuration matrix'],
